@@ -235,7 +235,11 @@ Proof.
   - match goal with |- 1 / ?W * sqrt ?A = sqrt ?B / sqrt ?W' =>
       assert (HWp : 0 < W) by (assert (0 <= W) by sq_nonneg; lra);
       assert (HB : 0 <= B) by sq_nonneg;
-      assert (E : A = W * B) by (abs_inv; nsz);
+      assert (E : A = W * B) by
+        (match goal with |- context [1 / ?d] =>
+           assert (Hd : d <> 0) by (replace d with (k * k * W) by ring;
+             repeat apply Rmult_integral_contrapositive_currified; assumption) end;
+         field; exact Hd);
       rewrite E, sqrt_mult by lra;
       assert (HS : sqrt W * sqrt W = W) by (apply sqrt_sqrt; lra);
       assert (0 < sqrt W) by (apply sqrt_lt_R0; exact HWp);
@@ -347,11 +351,13 @@ Example C19_c_nonvacuous :
   0 < pc_ip_0 Rops L (-1,0,0,2) /\ 0 < pc_ip_1 Rops L (-1,0,0,2) /\
   tr_distance Rops L M = 1 /\
   on N (0,0,1) /\ on M (0,0,1) /\ pc_intersects_0 Rops N M <= 0 /\ pc_distance_meet_0 Rops N M <= 0 /\
-  lw (0,-1,0,2,0,0) = vscale3 Rops 2 (lw L) /\ on (0,-1,0,2,0,0) (0,0,1).
+  lw (0,-2,0,2,0,0) = vscale3 Rops 2 (lw L) /\ on (0,-2,0,2,0,0) (0,0,1).
 Proof.
   unfold cp_path, dist_path. unf2.
   repeat match goal with |- context [sqrt ?e] => progress (replace e with 1 by ring) end.
   rewrite sqrt_1.
+  repeat match goal with |- context [sqrt ?e] => progress (replace e with (2*2) by ring) end.
+  rewrite ?sqrt_square by lra.
   repeat match goal with |- context [Rabs ?E] => progress (replace E with 1 by field) end.
   rewrite Rabs_R1.
   repeat match goal with |- context [Rabs ?E] => progress (replace E with (-1) by field) end.
